@@ -600,6 +600,7 @@ func (c *clipperBase) doSplitOp(outrec *OutRec, splitOp *OutPt) {
 	absArea1 := math.Abs(area1)
 
 	if absArea1 < 2 {
+		vEvent("splitDropRing", []float64{area1}, prevOp.pt, splitOp.pt, splitOp.next.pt)
 		outrec.pts = nil
 		return
 	}
@@ -622,6 +623,7 @@ func (c *clipperBase) doSplitOp(outrec *OutRec, splitOp *OutPt) {
 	}
 
 	if !(absArea2 > 1) || (!(absArea2 > absArea1) && (area2 > 0) != (area1 > 0)) {
+		vEvent("splitDiscard", []float64{area1, area2}, ip, splitOp.pt, splitOp.next.pt)
 		return
 	}
 
@@ -1626,6 +1628,7 @@ func (c *clipperBase) addLocalMaxPoly(ae1, ae2 *Active, pt Point64) *OutPt {
 		} else if isOpenEnd(ae2) {
 			swapFrontBackSides(ae2.outrec)
 		} else {
+			vEvent("sidesDisagree", nil, pt)
 			c.succeeded = false
 			return nil
 		}
